@@ -413,3 +413,239 @@ Proof.
   exists ts. rewrite Hts. cbn [mbind fst snd]. rewrite (pf_disclaimer_ok ds Hds). cbn [mbind].
   repeat split; assumption.
 Qed.
+
+(* ---------------------------------------------------------------- ch.cumulus *)
+
+Lemma cum_amount_spec gut bel : cum_amount_ok gut bel = true ->
+  cum_amount bel gut = MOk (cum_signed gut bel).
+Proof.
+  unfold cum_amount_ok, cum_amount, cum_signed, cum_decimal. intros H. apply andb_prop in H. destruct H as [Hx Hq].
+  apply is_some_inv in Hq. destruct Hq as [q Hq].
+  destruct (xorb_cases _ _ Hx) as [[Ha Hb]|[Ha Hb]]; rewrite Ha, Hb in *; cbn [negb andb]; rewrite Hq; cbn [dec_or0].
+  - rewrite mul_sign_neg. reflexivity.
+  - rewrite mul_sign_pos. reflexivity.
+Qed.
+
+Lemma date_rx_nonempty s : date_rx s = true -> is_empty s = false.
+Proof. destruct s; [discriminate|reflexivity]. Qed.
+
+Lemma cum_fx_none r : cum_is_comment r = false -> cum_fxcomment r = None.
+Proof.
+  unfold cum_is_comment, cum_fxcomment.
+  destruct r as [|f0 [|f1 [|f2 [|f3 [|f4 [|f5 r]]]]]]; try reflexivity.
+  intros H. rewrite H. reflexivity.
+Qed.
+
+Lemma cum_line_ignored acc r : cum_wf_entry (CumIgnored r) = true -> cum_line acc r = MOk acc.
+Proof.
+  cbn [cum_wf_entry]. intros H. apply andb_prop in H. destruct H as [Hc H].
+  apply negb_true_iff in Hc. unfold cum_line.
+  destruct r as [|f0 [|f1 r]]; [discriminate H| |].
+  - unfold cum_rounding, cum_booking, fld_p, fld. cbn [nth_error]. rewrite H. cbn [mbind].
+    rewrite (cum_fx_none _ Hc). reflexivity.
+  - unfold cum_rounding, cum_booking, fld_p, fld. cbn [nth_error]. change s_rundung with s_rund.
+    destruct (date_rx f0); cbn [negb orb] in *.
+    + apply andb_prop in H. destruct H as [H1 H2]. rewrite H1. cbn [mbind].
+      rewrite (cum_fx_none _ Hc). rewrite H2. reflexivity.
+    + cbn [mbind]. rewrite (cum_fx_none _ Hc). reflexivity.
+Qed.
+
+Definition cum_builder (e : cum_entry) : list cbuilder :=
+  match e with
+  | CumIgnored _ => []
+  | CumBooking r cs =>
+    [(date_or0 (parse_dmy (field r 0)), fold_left (fun d c => d ++ [32%Z] ++ c) cs (field r 2), cum_signed (field r 3) (field r 4))]
+  | CumRounding r cs =>
+    [(date_or0 (parse_dmy (field r 0)), fold_left (fun d c => d ++ [32%Z] ++ c) cs (field r 1), cum_signed (field r 2) (field r 3))]
+  end.
+
+Lemma andb7 a b c d e f g : a && b && c && d && e && f && g = true ->
+  a = true /\ b = true /\ c = true /\ d = true /\ e = true /\ f = true /\ g = true.
+Proof. destruct a, b, c, d, e, f, g; cbn; intuition congruence. Qed.
+Lemma andb6 a b c d e f : a && b && c && d && e && f = true ->
+  a = true /\ b = true /\ c = true /\ d = true /\ e = true /\ f = true.
+Proof. destruct a, b, c, d, e, f; cbn; intuition congruence. Qed.
+
+Lemma cum_line_booking acc r cs : cum_wf_entry (CumBooking r cs) = true ->
+  cum_line acc r = MOk ((date_or0 (parse_dmy (field r 0)), field r 2, cum_signed (field r 3) (field r 4)) :: acc).
+Proof.
+  cbn [cum_wf_entry]. intros H. apply andb7 in H. destruct H as (Hl & H0 & H1 & Hn & Hd & Ha & _).
+  unfold len_is in Hl. destruct r as [|f0 [|f1 [|f2 [|f3 [|f4 [|f5 r]]]]]]; try discriminate Hl.
+  unfold field in *. cbn [nth] in *.
+  apply is_some_inv in Hd. destruct Hd as [d Hd]. apply negb_true_iff in Hn.
+  unfold cum_line, cum_rounding, cum_booking, fld_p, fld, len_is. cbn [nth_error length Nat.eqb].
+  change s_rundung with s_rund. rewrite H0, H1, Hn. cbn [negb mbind].
+  cbn [cum_fxcomment]. rewrite (date_rx_nonempty _ H0). cbn [andb].
+  rewrite Hd. rewrite (cum_amount_spec _ _ Ha). cbn [mbind date_or0]. reflexivity.
+Qed.
+
+Lemma cum_line_rounding acc r cs : cum_wf_entry (CumRounding r cs) = true ->
+  cum_line acc r = MOk ((date_or0 (parse_dmy (field r 0)), field r 1, cum_signed (field r 2) (field r 3)) :: acc).
+Proof.
+  cbn [cum_wf_entry]. intros H. apply andb6 in H. destruct H as (Hl & H0 & H1 & Hd & Ha & _).
+  unfold len_is in Hl. destruct r as [|f0 [|f1 [|f2 [|f3 [|f4 r]]]]]; try discriminate Hl.
+  unfold field in *. cbn [nth] in *.
+  apply is_some_inv in Hd. destruct Hd as [d Hd].
+  unfold cum_line, cum_rounding, fld_p, fld, len_is. cbn [nth_error length Nat.eqb].
+  change s_rundung with s_rund. rewrite H0, H1. cbn [negb].
+  rewrite Hd. rewrite (cum_amount_spec _ _ Ha). cbn [mbind date_or0]. reflexivity.
+Qed.
+
+Lemma cum_line_comment d desc q acc c : is_empty c = false ->
+  cum_line ((d, desc, q) :: acc) (cum_comment_row c) = MOk ((d, desc ++ [32%Z] ++ c, q) :: acc).
+Proof.
+  intros Hc. unfold cum_line, cum_comment_row, cum_rounding, fld_p, fld. cbn [nth_error].
+  change (date_rx []) with false. cbn [negb mbind cum_fxcomment is_empty andb]. rewrite Hc. reflexivity.
+Qed.
+
+Lemma cum_loop_comments cs : forall d desc q acc rest,
+  forallb (fun c => negb (is_empty c)) cs = true ->
+  cum_loop ((d, desc, q) :: acc) (map CRec (map cum_comment_row cs) ++ rest) =
+  cum_loop ((d, fold_left (fun d c => d ++ [32%Z] ++ c) cs desc, q) :: acc) rest.
+Proof.
+  induction cs as [|c cs IH]; intros d desc q acc rest H; [reflexivity|].
+  cbn [forallb] in H. apply andb_prop in H. destruct H as [Hc Hcs]. apply negb_true_iff in Hc.
+  cbn [map app cum_loop]. rewrite (cum_line_comment d desc q acc c Hc). cbn [mbind].
+  rewrite IH by assumption. reflexivity.
+Qed.
+
+Lemma cum_wf_comments_b r cs : cum_wf_entry (CumBooking r cs) = true -> forallb (fun c => negb (is_empty c)) cs = true.
+Proof. cbn [cum_wf_entry]. intros H. apply andb7 in H. tauto. Qed.
+Lemma cum_wf_comments_r r cs : cum_wf_entry (CumRounding r cs) = true -> forallb (fun c => negb (is_empty c)) cs = true.
+Proof. cbn [cum_wf_entry]. intros H. apply andb6 in H. tauto. Qed.
+
+Lemma cum_loop_entry e acc rest : cum_wf_entry e = true ->
+  cum_loop acc (map CRec (cum_records e) ++ rest) = cum_loop (rev (cum_builder e) ++ acc) rest.
+Proof.
+  intros H. destruct e as [r|r cs|r cs]; cbn [cum_records map app cum_loop cum_builder rev].
+  - rewrite (cum_line_ignored acc r H). reflexivity.
+  - rewrite (cum_line_booking acc r cs H). cbn [mbind].
+    rewrite cum_loop_comments by (eapply cum_wf_comments_b; eassumption). reflexivity.
+  - rewrite (cum_line_rounding acc r cs H). cbn [mbind].
+    rewrite cum_loop_comments by (eapply cum_wf_comments_r; eassumption). reflexivity.
+Qed.
+
+Lemma cum_loop_entries es : forall acc,
+  forallb cum_wf_entry es = true ->
+  cum_loop acc (map CRec (flat_map cum_records es)) = MOk (rev (flat_map cum_builder es) ++ acc).
+Proof.
+  induction es as [|e es IH]; intros acc H; [reflexivity|].
+  cbn [forallb] in H. apply andb_prop in H. destruct H as [He Hes].
+  cbn [flat_map]. rewrite map_app. rewrite (cum_loop_entry e acc _ He). rewrite IH by assumption.
+  rewrite rev_app_distr, <- app_assoc. reflexivity.
+Qed.
+
+Lemma cum_builder_books acct e : acct <> tbd_account ->
+  Forall2 (books acct tbd_account) (cum_facts e)
+          (map (fun b => let '(d, desc, q) := b in mkTxn d desc (pair_build tbd_account acct s_CHF q dec_nil) None) (cum_builder e)) /\
+  map (fun b : cbuilder => snd (fst b)) (cum_builder e) = cum_texts e.
+Proof.
+  intros Hne. destruct e as [r|r cs|r cs]; cbn [cum_facts cum_builder cum_texts map]; split; try reflexivity; try constructor; try constructor;
+    apply books_debit; try assumption; reflexivity.
+Qed.
+
+Definition cum_txn_of (acct : account) (b : cbuilder) : txn :=
+  let '(d, desc, q) := b in mkTxn d desc (pair_build tbd_account acct s_CHF q dec_nil) None.
+
+Theorem cumulus_faithful acct entries :
+  acct <> tbd_account -> forallb cum_wf_entry entries = true ->
+  exists ts, import_cumulus acct (map CRec (flat_map cum_records entries)) = MOk (map DTxn ts) /\
+    Forall2 (books acct tbd_account) (flat_map cum_facts entries) ts /\
+    map t_desc ts = flat_map cum_texts entries.
+Proof.
+  intros Hne Hwf. exists (map (cum_txn_of acct) (flat_map cum_builder entries)).
+  unfold import_cumulus. rewrite (cum_loop_entries entries [] Hwf). cbn [mbind].
+  rewrite app_nil_r, rev_involutive. split.
+  - rewrite map_map. f_equal. apply map_ext. intros [[d desc] q]. reflexivity.
+  - clear Hwf. induction entries as [|e es IH]; [split; [constructor|reflexivity]|].
+    destruct IH as [IH1 IH2]. destruct (cum_builder_books acct e Hne) as [H1 H2].
+    cbn [flat_map]. rewrite !map_app. split.
+    + apply Forall2_app; assumption.
+    + rewrite IH2. f_equal. rewrite <- H2. rewrite map_map. apply map_ext. intros [[d desc] q]. reflexivity.
+Qed.
+
+(* ---------------------------------------------------------------- shared back half *)
+
+Lemma books_paired a c f t : books a c f t -> txn_ok t.
+Proof.
+  intros (_ & (q & [H|H]) & _). all: unfold txn_ok; rewrite H; apply pair_build_paired.
+Qed.
+
+Lemma books_all_paired a c fs ts : Forall2 (books a c) fs ts -> Forall directive_ok (map DTxn ts).
+Proof.
+  induction 1; cbn [map]; constructor; [|assumption].
+  cbn [directive_ok]. eapply books_paired; eassumption.
+Qed.
+
+(* what the importers hand to journal.Print consists of posting pairs, day by day *)
+Lemma imported_days_ok a c fs ts :
+  Forall2 (books a c) fs ts -> Forall day_ok (b_days (builder_of (map DTxn ts))).
+Proof. intros H. apply builder_of_ok. eapply books_all_paired; eassumption. Qed.
+
+(* Printer.printTransaction writes the description verbatim between two double quotes *)
+Lemma print_txn_header padding t : t_targets t = None ->
+  print_txn padding t =
+  format_date (t_date t) ++ [32; 34]%Z ++ t_desc t ++ [34; 10]%Z ++
+  concat (map (fun p => print_posting padding p ++ [10%Z]) (odd_postings (t_postings t))).
+Proof.
+  intros H. unfold print_txn. rewrite H. cbn [app]. rewrite <- ?app_assoc. reflexivity.
+Qed.
+
+(* the successful end of a run: stdout is the printed journal of the imported directives *)
+Lemma finish_run_ok pre ds : finish_run false pre (MOk ds) = mkRun (pre ++ print_directives ds) SOk.
+Proof. reflexivity. Qed.
+
+Lemma run_swisscard2_ok flag acct items ds : account_flag flag = AAcc acct ->
+  import_swisscard2 acct items = MOk ds -> run_swisscard2 flag items = mkRun (print_directives ds) SOk.
+Proof. intros Hf Hi. unfold run_swisscard2. rewrite Hf, Hi. reflexivity. Qed.
+Lemma run_cumulus_ok flag acct items ds : account_flag flag = AAcc acct ->
+  import_cumulus acct items = MOk ds -> run_cumulus flag items = mkRun (print_directives ds) SOk.
+Proof. intros Hf Hi. unfold run_cumulus. rewrite Hf, Hi. reflexivity. Qed.
+Lemma run_swisscard_ok flag acct items ds : account_flag flag = AAcc acct ->
+  import_swisscard acct items = MOk ds -> run_swisscard flag items = mkRun (print_directives ds) SOk.
+Proof. intros Hf Hi. unfold run_swisscard. rewrite Hf, Hi. reflexivity. Qed.
+Lemma run_supercard_ok flag acct items ds : account_flag flag = AAcc acct ->
+  import_supercard acct items = MOk ds -> run_supercard flag items = mkRun (print_directives ds) SOk.
+Proof. intros Hf Hi. unfold run_supercard. rewrite Hf, Hi. reflexivity. Qed.
+Lemma run_postfinance_ok flag acct items ds out : account_flag flag = AAcc acct ->
+  import_postfinance acct items = (MOk ds, out) ->
+  run_postfinance flag items = mkRun (out ++ print_directives ds) SOk.
+Proof. intros Hf Hi. unfold run_postfinance. rewrite Hf, Hi. reflexivity. Qed.
+Lemma run_viac_ok flag items ds : valid_name flag = true ->
+  import_viac flag 0 items = MOk ds -> run_viac flag None items = mkRun (print_directives ds) SOk.
+Proof.
+  intros Hf Hi. unfold run_viac. destruct flag; [discriminate Hf|]. cbn [is_empty]. rewrite Hf, Hi. reflexivity.
+Qed.
+
+(* F13: whatever the statement, the debug line of the postfinance importer is not empty *)
+Lemma pf_debug_line_nonempty r : pf_debug_line r <> [].
+Proof.
+  unfold pf_debug_line. cbn [pf_debug]. intros H.
+  apply (f_equal (@length Z)) in H. rewrite !app_length in H. cbn [length] in H. lia.
+Qed.
+
+(* ---------------------------------------------------------------- witnesses *)
+
+Definition first_line (s : str) : str :=
+  (fix go (s : str) : str := match s with [] => [] | c :: t => if (c =? 10)%Z then [] else c :: go t end) s.
+
+(* 06.07.2024 *)
+Definition w_date : str := [48;54;46;48;55;46;50;48;50;52]%Z.
+Definition w_acct_flag : str := [65;115;115;101;116;115;58;65]%Z.            (* Assets:A *)
+(* a swisscard2 row whose Beschreibung is a single double quote *)
+Definition w_quote_row : list str :=
+  [w_date; [34]; [97]; [97]; s_CHF; [49]; []; []; [97]; [97]; [97]; [97]]%Z.
+
+Lemma quote_witness :
+  sc2_wf_row w_quote_row = true /\
+  ir_status (run_swisscard2 w_acct_flag [CRec []; CRec w_quote_row]) = SOk /\
+  count_quotes (first_line (ir_stdout (run_swisscard2 w_acct_flag [CRec []; CRec w_quote_row]))) = 3%nat.
+Proof. vm_compute. repeat split. Qed.
+
+(* a postfinance statement without rows: the column header and one disclaimer line *)
+Lemma pf_stdout_witness :
+  let items := pf_statement [] [[97]%Z] [] [[68]%Z] [] in
+  fst (import_postfinance [s_Assets; [65]%Z] items) = MOk [] /\
+  ir_status (run_postfinance w_acct_flag items) = SOk /\
+  ir_stdout (run_postfinance w_acct_flag items) <> print_directives [].
+Proof. vm_compute. repeat split. discriminate. Qed.
